@@ -11,6 +11,7 @@ TCase ==
     /\ l <= Len(TraceLog)
     /\ TraceLog[l].e = "Case"
     /\ Format(TraceLog[l].tokens, TraceLog[l].type) = TraceLog[l].out
+    /\ ("sig" \in DOMAIN TraceLog[l]) => (CleanFunc(TraceLog[l].sig) = TraceLog[l].clean)
     /\ l' = l + 1
 TraceSpec == TInit /\ [][TCase]_l
 TraceAccepted ==
